@@ -46,7 +46,8 @@ pub fn level_of(check: &str) -> &'static str {
 fn panic_is_violation(check: &str) -> bool {
     // ... and the liveness properties: a station that has panicked never joins a ring, never brings
     // a peripheral back and never completes a scan.
-    matches!(check, "C04" | "C05" | "C10" | "C14" | "C02" | "C06" | "C07" | "C18")
+    // ("no application or station is starved", "each gets its turn": C13, C15)
+    matches!(check, "C04" | "C05" | "C10" | "C14" | "C02" | "C06" | "C07" | "C18" | "C13" | "C15")
 }
 
 pub fn build_monitors(sc: &Scenario, w: &World) -> Vec<Box<dyn Monitor>> {
